@@ -130,7 +130,7 @@ func judgeQuiescent(r *ev.Run, s *sutc.SUT, name, scenario string, detail map[st
 }
 
 func c20(r *ev.Run) {
-	r.Rule("fixed scenario list x PRNG parameters, each ending in quiescence (client connections closed or service stopped; two identical stat dumps >= 50 ms apart): normal / multi-key traffic, invalid and unsupported requests, MOVED and ASK redirections, backend reset and silence with requests in flight, connection-limit rejections, client disconnecting with requests in flight, service stopped while connections are open; the same for a TCP service (traffic, dial failures, host removal, stop while open); distinct = distinct scenarios x parameter classes")
+	r.Rule("fixed scenario list x PRNG parameters, each ending in quiescence (client connections closed or service stopped; two identical stat dumps >= 50 ms apart): normal / multi-key traffic, invalid and unsupported requests, MOVED and ASK redirections, backend reset and silence with requests in flight, connection-limit rejections, client disconnecting with requests in flight, service stopped while connections are open (idle, and with pipelines and redirections in flight); the same for a TCP service (traffic, dial failures, host removal, stop while open); distinct = distinct scenarios x parameter classes")
 	r.Assume("stat names follow utils.BuildStats: service.<name>.{downstream,upstream}.{cx_total,cx_destroy_total,cx_active,rq_total,rq_success_total,rq_failure_total} and service.<name>.redis.<cmd>.{total,success,error}")
 	s, err := startSUT(r, false, 200, 20)
 	if err != nil {
@@ -150,7 +150,7 @@ func c20(r *ev.Run) {
 		c20Redis(r, s, rnd, round)
 		c20TCP(r, s, rnd, round)
 	}
-	r.Require("scenarios_judged", int64(rounds*8))
+	r.Require("scenarios_judged", int64(rounds*9))
 }
 
 func c20Redis(r *ev.Run, s *sutc.SUT, rnd *rand.Rand, round int) {
@@ -159,7 +159,9 @@ func c20Redis(r *ev.Run, s *sutc.SUT, rnd *rand.Rand, round int) {
 		run  func(svc *RedisSvc, cl *fakecluster.Cluster) map[string]interface{}
 		opts RedisOpts
 		stop bool // stop the service while connections are open
+		live bool // traffic keeps flowing until the stop closes the connections (no wait for idle nodes before the stop)
 	}
+	var liveWg sync.WaitGroup
 	traffic := func(svc *RedisSvc, nconn, nreq int, mix string) []*rclient.Conn {
 		var conns []*rclient.Conn
 		var wg sync.WaitGroup
@@ -332,6 +334,47 @@ func c20Redis(r *ev.Run, s *sutc.SUT, rnd *rand.Rand, round int) {
 			traffic(svc, n, 10, "normal") // connections stay open
 			return map[string]interface{}{"open_connections": n}
 		}},
+		{name: "redis-stop-under-traffic", stop: true, live: true, run: func(svc *RedisSvc, cl *fakecluster.Cluster) map[string]interface{} {
+			// pipelines keep flowing (part of them redirected: the table is stale) while the service is stopped under them
+			for _, n := range cl.Nodes {
+				n.Delay = func([][]byte) time.Duration { return time.Millisecond }
+			}
+			ms := cl.Masters()
+			cl.Lock()
+			for sl := 0; sl < fakecluster.NumSlots; sl += 2 {
+				cl.SetOwnerLocked(sl, ms[rnd.Intn(len(ms))])
+			}
+			cl.Unlock()
+			nc := 2 + rnd.Intn(5)
+			for c := 0; c < nc; c++ {
+				conn, err := svc.Dial()
+				if err != nil {
+					continue
+				}
+				liveWg.Add(1)
+				go func(c int, conn *rclient.Conn) {
+					defer liveWg.Done()
+					defer conn.Close()
+					for round := 0; round < 2000; round++ {
+						var buf []byte
+						for i := 0; i < 16; i++ {
+							buf = append(buf, resp.CmdS("SET", fmt.Sprintf("live%d.%d.%d", c, round, i), "v")...)
+						}
+						conn.C.SetWriteDeadline(time.Now().Add(5 * time.Second))
+						if _, err := conn.C.Write(buf); err != nil {
+							return
+						}
+						for i := 0; i < 16; i++ {
+							if _, err := conn.Read(5 * time.Second); err != nil {
+								return
+							}
+						}
+					}
+				}(c, conn)
+			}
+			time.Sleep(time.Duration(20+rnd.Intn(80)) * time.Millisecond)
+			return map[string]interface{}{"connections_sending_during_the_stop": nc}
+		}},
 	}
 	for _, sc := range scens {
 		cl, err := fakecluster.New(2+rnd.Intn(2), 0)
@@ -377,7 +420,7 @@ func c20Redis(r *ev.Run, s *sutc.SUT, rnd *rand.Rand, round int) {
 		close(stopSample)
 		sampleWg.Wait()
 		// no node may have an open request: wait until the nodes stopped receiving and answered everything they will answer
-		for i, last := 0, int64(-1); i < 200; i++ {
+		for i, last := 0, int64(-1); i < 200 && !sc.live; i++ {
 			rc, an := cl.Received(), cl.Answered()
 			if rc == last && (an == rc || sc.name == "redis-backend-silent-then-closed") {
 				break
@@ -389,9 +432,11 @@ func c20Redis(r *ev.Run, s *sutc.SUT, rnd *rand.Rand, round int) {
 			if err := s.StopProc(svc.Name, 15*time.Second); err != nil {
 				r.Inconclusive("stop-did-not-return:" + sc.name)
 				cl.Close()
+				liveWg.Wait()
 				continue
 			}
 		}
+		liveWg.Wait()
 		judgeQuiescent(r, s, svc.Name, sc.name, detail)
 		if round == 0 && sc.name == "redis-normal" {
 			st, _ := s.Stats("service." + svc.Name + ".")
